@@ -51,6 +51,21 @@ def _el(a, i):
     return a.f((i,)) if a.ndim else a.f(())
 
 
+def _directed_bin1d():
+    """concrete decimal grids (conventions of rt/oracles.bin1d_vec): every edge of the California longitude / latitude lattices and
+    of the CSEP magnitude grid as a query point, plus points just inside and outside - where float round-off of (p - a0) / h
+    decides the bin and the tolerance terms of the code matter"""
+    from decimal import Decimal
+    fam = []
+    for a0, h, n in (('-125.4', '0.1', 124), ('31.5', '0.1', 40), ('5.95', '0.1', 31), ('0', '0.05', 41), ('2.5', '0.1', 56)):
+        edges = [float(Decimal(a0) + k * Decimal(h)) for k in range(n)]
+        hh = float(Decimal(h))
+        pts = edges + [e + hh / 2 for e in edges[::7]] + [edges[0] - hh, edges[0] - 1e-9, edges[-1] + hh, edges[-1] + 10 * hh]
+        for rc in (False, True):
+            fam.append(('bin1d_vec', dict(p=pts, bins=edges, right_continuous=rc)))
+    return fam
+
+
 class _Bin1d:
     """bin1d_vec(p, bins, tol, right_continuous) against binof (DESIGN 5/C02), model R.
 
@@ -58,6 +73,7 @@ class _Bin1d:
     monotonicity) and an arbitrary integer k naming an edge e_k = a0 + k*h."""
     qualname = 'csep.utils.calc.bin1d_vec'
     oracle = 'bin1d_vec'
+    directed = staticmethod(_directed_bin1d)
     pdtype = 'float64'
     bdtype = 'float64'
     scalar = False
